@@ -991,7 +991,7 @@ func TestVerifC08(t *testing.T) {
 
 	nHist, nOps, nHeap, nKeys, nRace := VEnvInt("C08_HIST", 250), 60, 600, 400, VEnvInt("C08_RACE", 300)
 	if VThorough() {
-		nHist, nOps, nHeap, nKeys, nRace = VEnvInt("C08_HIST", 2500), 140, 6000, 4000, VEnvInt("C08_RACE", 4000)
+		nHist, nOps, nHeap, nKeys, nRace = VEnvInt("C08_HIST", 8000), 140, 6000, 4000, VEnvInt("C08_RACE", 4000)
 	}
 
 	synctest.Test(t, func(t *testing.T) {
